@@ -510,8 +510,20 @@ def _dnskey(f):
     return [fl, pr, alg, k], [u16(fl), u8(pr), u8(alg), k]
 
 
-for _n, _t in (("DNSKEY", 48), ("CDNSKEY", 60), ("KEY", 25)):
+for _n, _t in (("DNSKEY", 48), ("CDNSKEY", 60)):
     reg(_n, _t)(_dnskey)
+
+
+@reg("KEY", 25)
+def g_key(f):
+    # RFC 2535 §7.1: with the NOKEY type flags nothing follows the algorithm octet
+    fl, pr, alg = f.uint(16), f.uint(8), f.uint(8)
+    if fl & 0xC000 == 0xC000:
+        k = b""
+        f.tags.add("nokey")
+    else:
+        k = f.blob(1, 130)
+    return [fl, pr, alg, k], [u16(fl), u8(pr), u8(alg), k]
 
 
 def _ds(cds):
